@@ -462,6 +462,21 @@ def _interval_ok(P, f, ev, b, t, ops, lits):
         for x in o:
             if B._const_int(x) == 1 and any(y.op == "call" and B.cname(y) == "Iterator::enumerate" for y in subterms(o[0] if x is o[1] else o[1])):
                 return ("interval", "enumerate index + 1 <= len <= isize::MAX")
+        # the same inside the closure of `iter.enumerate().map(|(i, x)| ..)`: i is the first component of the item
+        if f.kind == "Closure" and any(B._const_int(x) == 1 for x in o):
+            other = [x for x in o if B._const_int(x) != 1]
+            par = P.fns.get(f.j.get("parent_key"))
+            if other and par is not None:
+                ot = B.peel(other[0])
+                is_item0 = ot.op == "field" and ot.a[1] == "0" and B.peel(ot.a[0]).op == "param" and B.peel(ot.a[0]).a[0] == 2
+                if is_item0:
+                    pev = evaluate(par)
+                    for _, ps in sorted(pev.sites.items()):
+                        if ps.callee[0] == "Iterator::map" and len(ps.args) == 2:
+                            pc = B.peel(ps.args[1])
+                            src = B.peel(ps.args[0])
+                            if pc.op == "agg" and pc.a[0][0] == "closure" and pc.a[0][1] == f.key and src.op == "call" and B.cname(src) == "Iterator::enumerate":
+                                return ("interval", "enumerate index (first component of the mapped item) + 1 <= len <= isize::MAX")
     if kind == "Overflow(Sub)" and len(o) == 2:
         # len(buf) - n dominated by peek == Some(n) (n <= len)
         if _is_len_like(o[0]) and any(y.op == "call" and (B.cname(y) == "Uint::peek") for y in subterms(o[1])):
